@@ -90,6 +90,7 @@ def check(run):
     run.attempt(count, run, p)
     run.attempt(mirrors, run, p)
     run.attempt(verdicts, run, p, km)
+    run.attempt(keeps_constraints, run, p, km)
     from .common import observed_rule
     calc = p.cls('PandasConstraintCalculator')
     n_obs = observed_rule(run, 'C02-OBSERVED', p, list(calc.methods.values()),
@@ -647,6 +648,30 @@ def type_table(run, p, ver):
                n, '' if not bad else '; wrong for e.g. mode=%s allowed=%s actual=%s non-integers=%s booleans=%s: %r instead of %r' % bad[0]),
            fn=ver, detail={'wrong': bad[:5]} if bad else None)
     return n
+
+
+def keeps_constraints(run, p, km, rid='C02-KEEPS'):
+    """verification reads the constraints, it does not edit them"""
+    run.rule(rid, 'verifying leaves the constraints as they were given: the verifiers of the kinds whose value is a list '
+                  '(allowed_values, rex), evaluated with values present, allowed values and exclusions, return with the '
+                  'constraint\'s list and the exclusion list holding what they held before - the same object is verified '
+                  'again, written out again, and is the caller\'s own list when the constraints came as a dictionary')
+    n = 0
+    ver = km['allowed_values'][0]
+    bad = []
+    for actual in (['a'], ['a', 'b'], ['x'], [None, 'a']):
+        for allowed in (['a'], ['a', 'b'], ['a', 'b', 'c', 'd']):
+            for excl in (None, [], ['x'], [None, 'y']):
+                a0, e0 = list(allowed), (None if excl is None else list(excl))
+                a1, e1 = list(allowed), (None if excl is None else list(excl))
+                eval_verifier(p, ver, 'allowed_values', a1, {'calc_unique_values': list(actual), 'calc_nunique': len(actual), 'allowed_values_exclusions': e1})
+                n += 1
+                if a1 != a0 or e1 != e0:
+                    bad.append((actual, a0, e0, a1, e1))
+    run.ob(rid, '%s::%s::lists-kept' % (ver.rel, ver.short), not bad,
+           'allowed_values over %d cases: %s' % (n, 'the allowed values and the exclusions are as before' if not bad else
+                                                 'with present=%r allowed=%r exclusions=%r the verifier leaves allowed=%r exclusions=%r' % bad[0]), fn=ver)
+    run.floor(rid, n, 40)
 
 
 def eval_verifier(p, ver, kind, value, stubs, detect=False, epsilon=None, **attrs):
